@@ -2,7 +2,7 @@ INIT GenInit
 NEXT GenNext
 CONSTANTS
   KL = 9
-  KS = 6
-  MaxLen = 2
+  KS = 2
+  MaxLen = 3
 INVARIANTS Emit
 CHECK_DEADLOCK FALSE
